@@ -107,7 +107,33 @@ func runNode(events []string, props []string, args map[string]string) (res vx.Re
 		s.step = i
 		n.step = i
 		gFrom := len(s.gLog)
+		if strings.HasPrefix(ev, "BATCH:") {
+			// BATCH:<n>:<case>: the next n events happen before the state machine kernel looks at any of its inputs; it
+			// then takes the named case of its main select first if that one is ready (controlled select, see node.go).
+			p := strings.Split(ev, ":")
+			cnt, _ := strconv.Atoi(p[1])
+			pc, _ := strconv.Atoi(p[2])
+			r := "n/a:not-gated"
+			if n.gate != nil && n.batch == 0 && cnt >= 1 {
+				n.batch, n.pref = cnt, pc
+				r = "batching"
+			}
+			s.results = append(s.results, fmt.Sprintf("%3d %-28s %s", i, ev, r))
+			res.Keys = append(res.Keys, "batch")
+			writesAfter = append(writesAfter, s.st.f.writes)
+			continue
+		}
 		a := s.apply(ev)
+		if n.batch > 0 {
+			n.batch--
+			if n.batch > 0 {
+				// Inputs pile up in front of the held state machine kernel; the mirror and the rest of the engine run on.
+				s.drain(false)
+				res.Keys = append(res.Keys, "batching")
+				writesAfter = append(writesAfter, s.st.f.writes)
+				continue
+			}
+		}
 		crashedHere := s.st.f.frozen
 		if s.st.f.frozen {
 			n.stop()
